@@ -119,52 +119,6 @@ Proof. unfold set_not_snubbed. destruct (negb (cs_s _)); [intros H; inversion H;
   destruct (cs_u _); [discriminate|]. destruct (connection_queued _ _) eqn:Q; [|discriminate]. intros H.
   apply len_try in H. apply len_cq in Q. simpl in Q. intuition congruence. Qed.
 
-Lemma step_good s o rs s' : conn_op o = true -> GoodSt s -> step s o rs = Ok s' -> GoodSt s'.
-Proof.
-  intros Hc G. destruct o; simpl in Hc; try discriminate; simpl.
-  - (* ONew *) destruct (Nat.ltb t _) eqn:L; [|intros H; inversion H; subst; auto].
-    apply Nat.ltb_lt in L. intros H; inversion H; clear H. destruct G as ((Wu & Bu) & (Wd & Bd) & L1 & L2).
-    unfold GoodSt, Good; simpl. repeat split; auto; try (apply WF_add_conn; auto; congruence); try apply Bu; try apply Bd.
-  - (* OQueue *) destruct (alive _ _); [|intros H; inversion H; subst; auto]. apply on_half_good; auto.
-    intros v h h' Eh F. split; [|apply len_set_queued in F; simpl in F; auto].
-    eapply eff_eq; [eapply eff_trans; [apply (eff_updcs c (set_rd d true))|eapply eff_set_queued; eauto]|reflexivity].
-  - (* OUnqueue *) destruct (alive _ _); [|intros H; inversion H; subst; auto]. apply on_half_good; auto.
-    intros v h h' Eh F. split; [|apply len_set_not_queued in F; simpl in F; auto].
-    eapply eff_eq; [eapply eff_trans; [apply (eff_updcs c (set_rd d false))|eapply eff_set_not_queued; eauto]|reflexivity].
-  - (* OUnqueueKeep *) destruct (alive _ _); [|intros H; inversion H; subst; auto]. apply on_half_good; auto.
-    intros v h h' Eh F. split; [eapply eff_set_not_queued; eauto|apply len_set_not_queued in F; auto].
-  - destruct (alive _ _); [|intros H; inversion H; subst; auto]. apply on_half_good; auto.
-    intros v h h' Eh F. split; [eapply eff_set_snubbed; eauto|apply len_set_snubbed in F; auto].
-  - destruct (alive _ _); [|intros H; inversion H; subst; auto]. apply on_half_good; auto.
-    intros v h h' Eh F. split; [eapply eff_set_not_snubbed; eauto|apply len_set_not_snubbed in F; auto].
-  - (* OSetMaxSlots *) destruct (Nat.ltb _ _); [|intros H; inversion H; subst; auto]. apply on_half_good; auto.
-    intros v h h' Eh F; inversion F. split; [apply eff_upde_lims; intros; simpl; auto|triv_len].
-  - destruct (Nat.ltb _ _); [|intros H; inversion H; subst; auto]. apply on_half_good; auto.
-    intros v h h' Eh F; inversion F. split; [apply eff_upde_lims; intros; simpl; auto|triv_len].
-  - (* OSetQMax *) destruct (Nat.ltb _ _); [|intros H; inversion H; subst; auto]. apply on_half_good; auto.
-    intros v h h' Eh F; inversion F. split; [apply eff_updq_lims; intros; simpl; auto|triv_len].
-  - destruct (_ && _); [|intros H; inversion H; subst; auto]. apply on_half_good; auto.
-    intros v h h' Eh F; inversion F. split; [apply eff_updq_lims; intros; simpl; auto|triv_len].
-  - (* OSetGMax *) destruct (N.leb _ _); [|intros H; inversion H; subst; auto]. apply on_half_good; auto.
-    intros v h h' Eh F; inversion F. split; [apply eff_with_max|triv_len].
-  - (* OSetGroup *) destruct (_ && _) eqn:C; [|intros H; inversion H; subst; auto].
-    apply andb_prop in C; destruct C as [C _]. apply andb_prop in C; destruct C as [_ C]. apply Nat.ltb_lt in C.
-    destruct (on_half Up rs s _) as [s1|] eqn:O1; [|discriminate].
-    assert (G1 : GoodSt s1).
-    { eapply on_half_good; [|exact G|exact O1]. intros v h h' Eh F. split.
-      - eapply eff_move_half; [|exact F]. subst h; simpl. exact C.
-      - unfold move_half in F. destruct (rswap _ _ _); [|discriminate]. inversion F; triv_len. }
-    intros O2. eapply on_half_good; [|exact G1|exact O2]. intros v h h' Eh F. split.
-    + eapply eff_move_half; [|exact F]. subst h; simpl.
-      assert (X : length (h_qs (s_dn s1)) = length (h_qs (s_up s))).
-      { unfold on_half in O1. destruct (move_half _ _ _) as [hh|] eqn:M; [|discriminate]. inversion O1; simpl.
-        destruct G as (_ & _ & L1 & _). auto. }
-      rewrite X. exact C.
-    + unfold move_half in F. destruct (rswap _ _ _); [|discriminate]. inversion F; triv_len.
-  - (* OAdvance *) intros H; inversion H. destruct G as (? & ? & ? & ?). unfold GoodSt; simpl; auto.
-  - (* ORate *) destruct (Nat.ltb _ _); intros H; inversion H; subst; auto; destruct G as (? & ? & ? & ?); unfold GoodSt; simpl; auto.
-Qed.
-
 (* ---------------------------------------------------------------- all op lists of conn_ops *)
 Lemma sum_repeat0 {A} (f : A -> Z) x n : f x = 0 -> sumZ (map f (repeat x n)) = 0.
 Proof. intros; induction n; simpl; lia. Qed.
@@ -183,40 +137,6 @@ Qed.
 Lemma init_good nt ng : (0 < nt)%nat -> (0 < ng)%nat -> GoodSt (init nt ng).
 Proof. intros. unfold GoodSt, init; simpl. repeat split; try apply empty_half_good; auto.
   destruct ng; simpl; rewrite ?repeat_length; auto. Qed.
-
-Lemma run_good : forall ops s s', forallb (fun p => conn_op (fst p)) ops = true -> GoodSt s -> run s ops = Ok s' -> GoodSt s'.
-Proof. induction ops as [|[o rs] r IH]; simpl; intros s s' Hc G H.
-  - inversion H; subst; auto.
-  - apply andb_prop in Hc; destruct Hc as [Ho Hr]. destruct (step s o rs) as [s1|] eqn:S; [|discriminate].
-    simpl in H. apply (IH s1 s' Hr); auto. eapply step_good; eauto. Qed.
-
-(* counters_inv restricted to the per-connection / limit / group-move ops (everything a peer or the
-   user can trigger between two ticks, except closing a connection):
-   sum of queue counters = sum of list sizes, sum of torrent counters = sum of unchoked-list sizes,
-   global counter = sum of queue unchoked counters, for both directions. *)
-Definition consistent (h : half) : Prop :=
-  SQu h = SEu h /\ SQq h = SEq h /\ STn h = SEu h /\ h_cur h = SQu h.
-
-Theorem counters_inv_conn_ops_partial : forall nt ng ops s,
-  (0 < nt)%nat -> (0 < ng)%nat -> forallb (fun p => conn_op (fst p)) ops = true ->
-  run (init nt ng) ops = Ok s -> consistent (s_up s) /\ consistent (s_dn s).
-Proof. intros nt ng ops s Hn Hg Hc H. pose proof (run_good ops _ _ Hc (init_good nt ng Hn Hg) H) as (Gu & Gd & _).
-  unfold consistent. destruct Gu as (_ & A1 & A2 & A3 & A4), Gd as (_ & B1 & B2 & B3 & B4).
-  unfold BalU, BalQ, BalT, D in *. repeat split; lia. Qed.
-
-(* non-vacuity: a history with unchokes, a snub, limits and a group move satisfies the hypotheses *)
-Definition ex_ops : list (op * list N) :=
-  [(ONew 0, []); (ONew 1, []); (OQueue Up 0, []); (OQueue Dn 1, []); (OSetGroup 1 1, []); (OSnub Up 0, []);
-   (OAdvance 10000001, []); (OUnsnub Up 0, []); (OQueue Up 0, []); (OSetGMax Up 1%N, []); (OQueue Up 1, [])].
-Example counters_inv_conn_ops_nonvacuous :
-  forallb (fun p => conn_op (fst p)) ex_ops = true /\
-  match run (init 2 2) ex_ops with Ok s => h_cur (s_up s) = 1 /\ h_cur (s_dn s) = 1 | Err _ => False end.
-Proof. vm_compute. repeat split. Qed.
-
-(* zero_on_close (partial): when every entry list is empty, the counter totals are zero *)
-Theorem zero_when_lists_empty_partial : forall h, consistent h -> SEu h = 0 -> SEq h = 0 ->
-  h_cur h = 0 /\ SQu h = 0 /\ SQq h = 0 /\ STn h = 0.
-Proof. unfold consistent; intros h (A & B & C & E) U Q. repeat split; lia. Qed.
 
 (* ---------------------------------------------------------------- limits: the guard of set_queued *)
 (* An upload-side connection that becomes interested (or is un-snubbed) is only unchoked when the
